@@ -85,7 +85,7 @@ def use_smaller_problem_first(w):
     import re
     from pddl_plus_parser.models import ActionCall
     from pddl_plus_parser.multi_agent.common import apply_actions, create_initial_state
-    small = w.ptext.replace("i1 i2 - item", "i1 - item")
+    small = w.ptext.replace("i1 i2 - item", "i1 - item").replace(" i2 - crate", "")
     small = re.sub(r"\([a-z]+( [a-z0-9]+)* i2\)", "", small)
     if small == w.ptext:
         return
